@@ -588,7 +588,9 @@ func (f *frame) builtin(b *ssa.Builtin, c *ssa.CallCommon, pos token.Pos, res ss
 			hs := "(Array Int (Array Int Int))"
 			h := vc.lookup(f.st, hn, hs)
 			row := vc.fresh("row", "(Array Int Int)")
-			vc.emit(fmt.Sprintf("(assert (forall ((i Int)) (! (= (select %s i) (ite (and (<= (s-off %s) i) (< i (+ (s-off %s) %s))) (sat %s (- i (s-off %s))) (select (select %s (s-arr %s)) i))) :pattern ((select %s i)))))", row, dst, dst, n, s, dst, h, dst, row))
+			vc.rowAxiom(row, func(i string) string {
+				return fmt.Sprintf("(ite (and (<= (s-off %s) %s) (< %s (+ (s-off %s) %s))) (sat %s (- %s (s-off %s))) (select (select %s (s-arr %s)) %s))", dst, i, i, dst, n, s, i, dst, h, dst, i)
+			})
 			f.st = vc.store(f.st, hn, hs, sx("store", h, sArr(dst), row))
 		} else {
 			src := f.term(c.Args[1])
@@ -669,16 +671,17 @@ func (f *frame) appendOp(c *ssa.CallCommon, pos token.Pos) Val {
 		h := vc.lookup(f.st, hn, hs)
 		row := vc.fresh("row", "(Array Int "+srt+")")
 		lo := sx("+", resOff, sLen(s))
-		var srcElem string
-		if fromString != "" {
-			srcElem = sx("sat", fromString, sx("-", "i", lo))
-		} else {
-			srcElem = sx("select", sx("select", h, tArr), sx("+", tOff, sx("-", "i", lo)))
-		}
-		oldElem := ite(inPlace, sx("select", sx("select", h, sArr(s)), "i"),
-			ite(and(sx("<=", "0", "i"), sx("<", "i", sLen(s))), sx("select", sx("select", h, sArr(s)), sx("+", sOff(s), "i")), vc.zeroOf(et)))
-		vc.emit(fmt.Sprintf("(assert (forall ((i Int)) (! (= (select %s i) (ite (and (<= %s i) (< i (+ %s %s))) %s %s)) :pattern ((select %s i)))))",
-			row, lo, lo, tLen, srcElem, oldElem, row))
+		vc.rowAxiom(row, func(i string) string {
+			var srcElem string
+			if fromString != "" {
+				srcElem = sx("sat", fromString, sx("-", i, lo))
+			} else {
+				srcElem = sx("select", sx("select", h, tArr), sx("+", tOff, sx("-", i, lo)))
+			}
+			oldElem := ite(inPlace, sx("select", sx("select", h, sArr(s)), i),
+				ite(and(sx("<=", "0", i), sx("<", i, sLen(s))), sx("select", sx("select", h, sArr(s)), sx("+", sOff(s), i)), vc.zeroOf(et)))
+			return fmt.Sprintf("(ite (and (<= %s %s) (< %s (+ %s %s))) %s %s)", lo, i, i, lo, tLen, srcElem, oldElem)
+		})
 		f.st = vc.store(f.st, hn, hs, sx("store", h, resArr, row))
 	}
 	r := vc.define("app", "Slice", sx("mk-slice", resArr, resOff, newLen, resCap))
